@@ -27,6 +27,8 @@ EXPLANATION = (
     'data+pos; find searches [pos, size) only behind pos < size and reports the offset from data(); span element access and '
     'sub-views use the stored pointer plus the requested offset.')
 EXPLANATION += ' C20.R1 also covers nostd::unique_ptr: outside constructors ptr_ is written only by reset/release/swap, reset deletes before it overwrites, and every assignment overload instantiated in the driver (same type, converting, from std::unique_ptr, nullptr) is reset(other.release()) / reset(). C20.R5: std::hash<nostd::string_view> is, on every path, std::hash<std::string> of string(data(), size()). Witnesses W23/W24: copying a function_ref selects the trivial copy/move constructor, not the converting template.'
+ROUND2_EXPLANATION = (' C20.R4 also: the count handed to Traits::find is size - pos. C20.R6 (string_view siblings): operator< / > are the sign of compare (3-row table), every != and mixed == overload delegates to == on its own operands in order, compare overloads hand their (pos, count) pairs to substr of the operand they belong to, find reports data()-relative offsets (constant folding). C20.R7 (span): size / empty / begin / end / data / operator[] and the index assertion as tables over the extent; span(first, last) takes extent last - first.')
+EXPLANATION += ROUND2_EXPLANATION
 NOT_DECIDED = ('equivalence with the std types for every operation over runtime values: comparisons and ordering in general, the hash values themselves, '
                'find/substr results, variant selection/visitation/valueless ordering (vendored absl code is outside the analysed scope), '
                'function_ref invocation.')
